@@ -82,6 +82,17 @@ func (g *Engine) Start() error {
 		g.pollers[i] = p
 	}
 
+	// The poller loops read the mode and the async-read executor when they
+	// start: both must be in place before any poller goroutine runs.
+	g.isOneshot = (g.EpollMod == EPOLLET && g.EPOLLONESHOT == EPOLLONESHOT)
+
+	if g.AsyncReadInPoller {
+		if g.IOExecute == nil {
+			g.ioTaskPool = taskpool.NewIO(0, 0, 0)
+			g.IOExecute = g.ioTaskPool.Go
+		}
+	}
+
 	// Start IO pollers.
 	for i := 0; i < g.NPoller; i++ {
 		g.pollers[i].ReadBuffer = make([]byte, g.ReadBufferSize)
@@ -116,14 +127,6 @@ func (g *Engine) Start() error {
 	}
 
 	g.Timer.Start()
-	g.isOneshot = (g.EpollMod == EPOLLET && g.EPOLLONESHOT == EPOLLONESHOT)
-
-	if g.AsyncReadInPoller {
-		if g.IOExecute == nil {
-			g.ioTaskPool = taskpool.NewIO(0, 0, 0)
-			g.IOExecute = g.ioTaskPool.Go
-		}
-	}
 
 	if len(g.Addrs) == 0 {
 		logging.Info("NBIO Engine[%v] start with [%v eventloop, MaxOpenFiles: %v]",
